@@ -679,13 +679,15 @@ def instances(tier, prop):
                 for jobs in _jobsets(k, arr):
                     h = _stable_hash((k, moves, arr, jobs))
                     # thinning of the largest families (stated in bounds): every arrangement is kept, job sets are thinned
-                    if k == 4 and quick and (wf or restart or want_delete) and h % 3:
+                    thin = k == 4 and quick and h % 3 != 0
+                    if thin and wf:
                         continue
                     if k == 5 and (h % (12 if wf else 4)):
                         continue
+                    # on the quick tier two thirds of the k = 4 all-'sh' pre-states run without the (expensive) restart leg
                     out.append({"kind": "ind", "k": k, "moves": moves, "arr": list(arr), "jobs": [list(j) for j in jobs],
                                 "numbering": "later" if want_delete else "initial",
-                                "delete": "lag" if want_delete else "off", "restart": restart, "prop": prop,
+                                "delete": "lag" if want_delete else "off", "restart": restart and not thin, "prop": prop,
                                 "_cost": k ** 3 * len(jobs) * (4 if wf else 1)})
     bm = [(2, 1, 3), (3, 1, 2), (3, 2, 2)] if quick else [(2, 1, 5), (3, 1, 4), (3, 2, 3), (4, 1, 3), (4, 2, 2), (4, 3, 2)]
     for k, w, D in bm:
@@ -800,6 +802,18 @@ def _ind(ctx, sh):
     # ---- step: the idle worker gets a new job
     next_job(ctx, st, world, inflight, m)
     check_invariants(ctx, st, inflight, "after-pick")
+    # ---- the invariant was broken (an assertion of another HRX property failed): follow the history for two more steps so
+    #      that the consequences for the property under check become observable (or not)
+    extra = 0
+    while getattr(ctx, "other_hit", False) and extra < 2 and inflight:
+        extra += 1
+        ctx.cover("ind:followed-broken-invariant")
+        m, outcome = finish_job(ctx, st, world, inflight, k, wf_m=(1,))
+        check_invariants(ctx, st, inflight, f"follow-up#{extra}-after-treat_output", after_treat=True)
+        if sh.get("restart", True):
+            restart_roundtrip(ctx, st, world, inflight, k)
+        next_job(ctx, st, world, inflight, m)
+        check_invariants(ctx, st, inflight, f"follow-up#{extra}-after-pick")
 
 
 class _ScriptedGen(rngmodel.GenModel):
